@@ -24,6 +24,8 @@ NODE = 'cstl_dlist_node'
 
 
 def run(m, rep, tier):
+    from .. import canaries
+    canaries.run(m, rep, ('handoff',))
     decls = header_functions(m, ('dlist.h',))
     d1 = rep.rule('D1', 'functions documented to return NULL can return NULL', floor=5)
     listrules.doc_null(m, d1, decls)
